@@ -2,6 +2,8 @@ package main
 
 import (
 	"bytes"
+	"encoding/json"
+	"fmt"
 	"math/big"
 
 	"github.com/consensys/gnark/frontend"
@@ -56,3 +58,31 @@ func lastLine(b []byte) string {
 	}
 	return string(b)
 }
+
+// panicError marks a panic of the code under observation caught at the call boundary: the monitors report it as a
+// violation of the property being decided (a codec that panics neither round-trips nor "fails with an error").
+type panicError struct{ v any }
+
+func (p panicError) Error() string {
+	return fmt.Sprintf("PANIC in the code under observation: %v", p.v)
+}
+
+func safeUnmarshal(data []byte, v any) (err error) {
+	defer func() {
+		if r := recover(); r != nil {
+			err = panicError{r}
+		}
+	}()
+	return json.Unmarshal(data, v)
+}
+
+func safeMarshal(v any) (out []byte, err error) {
+	defer func() {
+		if r := recover(); r != nil {
+			out, err = nil, panicError{r}
+		}
+	}()
+	return json.Marshal(v)
+}
+
+func isPanic(err error) bool { _, ok := err.(panicError); return ok }
